@@ -234,6 +234,46 @@ REAL_DTYPES = {"float", "np.float64", "np.float32", "np.double",
                "'float'", "'d'", "np.float_", "np.single"}
 
 
+def _hessian_flag(model, rep):
+    """The energy branch (Jacobian = second derivative of form(u, w)) is
+    selected by the *value* of the 'hessian' parameter: absent and False
+    mean the ordinary (u, v, w) integrand.  The selecting test is evaluated
+    for the three parameter dictionaries."""
+    R3 = "C20-R3"
+    fn = model.func("skfem.autodiff", "NonlinearForm._assemble")
+    tests = [n.test for n in ast.walk(fn.node) if isinstance(n, ast.If)
+             and any(isinstance(c, ast.Constant) and c.value == "hessian"
+                     for c in ast.walk(n.test))]
+    if not tests:
+        raise AnalysisError("NonlinearForm._assemble: no test of the "
+                            "'hessian' parameter found")
+    cls = model.cls("skfem.autodiff", "NonlinearForm")
+    for k, t in enumerate(tests):
+        got = []
+        for params in ({}, {"hessian": True}, {"hessian": False}):
+            try:
+                v = Interp(model).eval(
+                    t, {"self": Obj(cls, {"params": dict(params)})},
+                    fn.module)
+            except Raised as e:
+                v = f"raises {e.what}"
+            except Unsupported as e:
+                raise AnalysisError(f"hessian test outside grammar: {e}")
+            got.append(v if isinstance(v, str) else bool(v))
+        cons = f"NonlinearForm._assemble:hessian-flag[{k}]"
+        if got == [False, True, False]:
+            rep.ok(R3, cons, "energy branch iff params['hessian'] is true "
+                             "(absent / True / False -> no / yes / no)")
+        else:
+            rep.fail(R3, fn.path, fn.short(), cons,
+                     f"the test '{ast.unparse(t)}' selects the energy "
+                     f"branch for (no parameter, hessian=True, "
+                     f"hessian=False) = {got}; expected [False, True, "
+                     f"False]: NonlinearForm(form, hessian=False) would "
+                     f"call the (u, v, w) integrand as an energy "
+                     f"functional", t.lineno)
+
+
 def _helper_purity(model, rep):
     """An integrand evaluates several helpers on the same field; each equals
     its definition only if none of them writes into the arrays of the field.
@@ -404,11 +444,15 @@ def run(model: Model, rep, tier: str) -> None:
                  "the C01 producer rules once that module is present")
     else:
         check_producer_autodiff(model, rep, "C20-R3")
+    _hessian_flag(model, rep)
 
 
 _H, _J = "skfem/helpers.py", "skfem/autodiff/helpers.py"
 _AD = "skfem/autodiff/__init__.py"
 MUTANTS = [
+    ("autodiff: energy branch selected by the presence of the flag",
+     (_AD, "            if self.params.get('hessian', False):",
+      "            if 'hessian' in self.params:"), "C20-R3"),
     ("symmetric gradient accumulated in the transposed view",
      ("skfem/helpers.py", "    return .5 * (u.grad + transpose(u.grad))",
       "    out = transpose(u.grad)\n    out += u.grad\n    out *= .5\n"
@@ -480,10 +524,10 @@ MUTANTS = [
       "                data1,"), "C20-R3"),
     ("autodiff: Jacobian slot stride off by one block",
      ("skfem/autodiff/__init__.py",
-      "                ixs = slice(nt * (basis.Nbfun * j + i),\n"
-      "                            nt * (basis.Nbfun * j + i + 1))",
       "                ixs = slice(nt * (basis.Nbfun * i + j),\n"
-      "                            nt * (basis.Nbfun * i + j + 1))"),
+      "                            nt * (basis.Nbfun * i + j + 1))",
+      "                ixs = slice(nt * (basis.Nbfun * j + i),\n"
+      "                            nt * (basis.Nbfun * j + i + 1))"),
      "C20-R3"),
     ("autodiff: derivative applied to the test function",
      ("skfem/autodiff/__init__.py",
@@ -496,6 +540,9 @@ MUTANTS = [
       "[[w if i <= j else 0. * w for i in range(n)]"), "C20-R1"),
 ]
 TWINS = [
+    ("autodiff: energy flag read with a presence test and the value",
+     (_AD, "            if self.params.get('hessian', False):",
+      "            if 'hessian' in self.params and self.params['hessian']:")),
     ("symmetric gradient accumulated in a fresh array",
      ("skfem/helpers.py", "    return .5 * (u.grad + transpose(u.grad))",
       "    out = transpose(u.grad).copy()\n    out += u.grad\n"
